@@ -259,9 +259,12 @@ def ufunc_class_factory(name, nargin, nargout, docstring):
                 return getattr(x[0].ufuncs, name)(*x[1:])
         else:
             if nargin == 1:
-                return getattr(x.ufuncs, name)(out=out)
+                getattr(x.ufuncs, name)(out=out)
             else:
-                return getattr(x[0].ufuncs, name)(*x[1:], out=out)
+                getattr(x[0].ufuncs, name)(*x[1:], out=out)
+            # For ufuncs with two outputs, the call above returns a tuple
+            # of the parts of `out`, not `out` itself
+            return out
 
     def __repr__(self):
         """Return ``repr(self)``."""
